@@ -57,8 +57,9 @@ def _run_one(args):
             if rc == 0:
                 return (w["id"], "ok", "silent on behaviour-preserving edit")
             return (w["id"], "FALSE-ALARM", f"rc={rc} rules={rules} {printed[:300]}")
-        if rc == 1 and any(r.startswith(exp) for r in rules):
-            return (w["id"], "ok", f"reported by {[r for r in rules if r.startswith(exp)]}")
+        exps = [exp] if isinstance(exp, str) else list(exp)
+        if rc == 1 and any(r.startswith(e) for r in rules for e in exps):
+            return (w["id"], "ok", f"reported by {[r for r in rules if any(r.startswith(e) for e in exps)]}")
         return (w["id"], "MISSED", f"rc={rc} rules={rules} {printed[:300]}")
     finally:
         shutil.rmtree(tmp, ignore_errors=True)
